@@ -154,6 +154,9 @@ def unique_names(g):
     except Exception as e:
         bad.append(("names-unreadable/" + type(e).__name__, ""))
     if names is not None:
+        # (a segment named '*', accepted only at validation level 0, is stored under an internal
+        #  key: not an identifier, outside the claim)
+        names = [n for n in names if isinstance(n, str)]
         if len(set(names)) != len(names):
             dup = sorted(set(n for n in names if names.count(n) > 1))
             bad.append(("names-duplicates", "gfa.names lists %r more than once" % dup))
